@@ -1,4 +1,139 @@
-From PV Require Import Lib.Common Model.C01_Meiosis Model.C01_Mating Proofs.C01_Meiosis.
-Theorem C01_mat_dh_homozygous : forall geno sel xoprob r, nth 0 (fst (mat_dh geno sel xoprob r)) [] = nth 1 (fst (mat_dh geno sel xoprob r)) [].
+(** C01 — Mendelian fidelity: property theorems only (statement, [exact] of a lemma proved in Proofs/, [Print Assumptions]).
+    Models: Model/C01_Meiosis.v (mat_meiosis / mat_dh / mat_mate = dense_meiosis / dense_dh / dense_cross),
+            Model/C01_Mating.v  (mate() of the seven protocols incl. names, labels, counters, metadata, group_taxa()).
+    Specification vocabulary (Proofs/C01_Meiosis.v, Proofs/C01_Mating.v):
+      [mosaic xoprob g0 g1 gam]   gam = pick g0 g1 c for a copy choice c per marker (c_{-1} = copy 0) that changes at marker j only if 0 < xoprob_j;
+      [ped], [designated p row nself]   the pedigree a cross-configuration row designates (founder / cross / self / doubled haploid);
+      [realises geno xoprob t (c0, c1)]   both copies are mosaics of the two copies of the designated parent, which realises its own pedigree;
+      [who xc nm np]   the cross index of every progeny = numpy.repeat(arange(ncross), nmating * nprogeny);
+      [from_founder geno fs h]   every allele of h sits at the same marker in a copy of a founder listed in fs. *)
+From Coq Require Import Permutation.
+From PV Require Import Lib.Common Model.C01_Meiosis Model.C01_Mating Proofs.C01_Meiosis Proofs.C01_Mating.
+Local Open Scope Z_scope.
+
+(** one meiosis product is a left-to-right mosaic of the two copies of the selected individual; the source copy changes
+    only at markers whose crossover probability is positive — for all genotypes, probabilities and non-negative draws *)
+Theorem C01_gamete_mosaic : forall geno s rnd xoprob, nonneg_row rnd ->
+  mosaic xoprob (row geno 0 s) (row geno 1 s) (gamete geno s rnd xoprob).
+Proof. exact gamete_mosaic. Qed.
+Print Assumptions C01_gamete_mosaic.
+
+(** the loop as written in mat_meiosis / dense_meiosis (flatnonzero, segment copies, phase toggled after each segment)
+    computes exactly the per-marker gamete *)
+Theorem C01_loop_is_per_marker : forall geno xoprob sel rnd, rows_ok (length xoprob) geno ->
+  Forall (fun s => (s < length (nth 0 geno []))%nat) sel ->
+  meiosis_rows_seg geno sel rnd xoprob = meiosis_rows geno sel rnd xoprob.
+Proof. intros geno xoprob sel rnd H1 H2. exact (meiosis_rows_seg_eq geno xoprob sel H1 H2 rnd). Qed.
+Print Assumptions C01_loop_is_per_marker.
+
+(** mat_mate: phase 0 holds gametes of the female selection, phase 1 gametes of the male selection *)
+Theorem C01_mat_mate_sides : forall fgeno mgeno fsel msel xoprob r, nonneg_draws (pending r) ->
+  exists c0 c1, fst (mat_mate fgeno mgeno fsel msel xoprob r) = [c0; c1] /\
+    Forall2 (fun s gam => mosaic xoprob (row fgeno 0 s) (row fgeno 1 s) gam) fsel c0 /\
+    Forall2 (fun s gam => mosaic xoprob (row mgeno 0 s) (row mgeno 1 s) gam) msel c1.
+Proof. exact mat_mate_sides. Qed.
+Print Assumptions C01_mat_mate_sides.
+
+(** mat_dh: both phases are the same gamete *)
+Theorem C01_mat_dh_homozygous : forall geno sel xoprob r,
+  nth 0 (fst (mat_dh geno sel xoprob r)) [] = nth 1 (fst (mat_dh geno sel xoprob r)) [].
 Proof. exact mat_dh_homozygous. Qed.
 Print Assumptions C01_mat_dh_homozygous.
+
+(** MOSAIC — every progeny returned by mate(), for each of the seven protocols, every cross table (selfs, repeated parents),
+    scalar or array counts (zeros included), every selfing depth, all probabilities and all non-negative draws: its family
+    label names a cross row i and it realises the pedigree that row i designates (each chromosome copy a mosaic of the two
+    copies of the designated founder or intermediate hybrid, recursively, switching only where xoprob > 0) *)
+Theorem C01_mosaic : forall p geno xoprob meta xc nmating nprogeny nself pc fc draws x,
+  mate p geno xoprob meta xc nmating nprogeny nself pc fc draws = Some x -> nonneg_draws draws ->
+  forall j, (j < length (p_taxa x))%nat ->
+  exists i, (i < length xc)%nat /\ nth j (p_grp x) 0 = fc + Z.of_nat i /\
+            realises geno xoprob (designated p (nth i xc []) nself) (indiv (p_mat x) j).
+Proof. exact mate_mosaic. Qed.
+Print Assumptions C01_mosaic.
+
+(** CLOSURE — every allele of every progeny sits at the same marker in a chromosome copy of a founder named in the progeny's cross row *)
+Theorem C01_closure : forall p geno xoprob meta xc nmating nprogeny nself pc fc draws x,
+  mate p geno xoprob meta xc nmating nprogeny nself pc fc draws = Some x -> nonneg_draws draws ->
+  forall j, (j < length (p_taxa x))%nat ->
+  exists i, (i < length xc)%nat /\ nth j (p_grp x) 0 = fc + Z.of_nat i /\
+            from_founder geno (nth i xc []) (row (p_mat x) 0 j) /\ from_founder geno (nth i xc []) (row (p_mat x) 1 j).
+Proof. exact mate_closure. Qed.
+Print Assumptions C01_closure.
+
+(** COUNTS — #progeny = sum nmating_i * nprogeny_i; the (family label, name) pairs are exactly
+    (family_counter + cross index by the repeat pattern, prefix + zero-filled progeny_counter + k); the group table decodes
+    to the labels; both counters advance by exactly the numbers produced *)
+Theorem C01_counts_order : forall p geno xoprob meta xc nmating nprogeny nself pc fc draws x,
+  mate p geno xoprob meta xc nmating nprogeny nself pc fc draws = Some x ->
+  exists nm np, expand_count nmating (length xc) = Some nm /\ expand_count nprogeny (length xc) = Some np /\
+    let N := sumn (map2 Nat.mul nm np) in
+    ntaxa_of (p_mat x) = N /\ length (nth 1 (p_mat x) []) = N /\ length (p_taxa x) = N /\ length (p_grp x) = N /\
+    p_pc x = pc + Z.of_nat N /\ p_fc x = fc + Z.of_nat (length xc) /\
+    Permutation (combine (p_grp x) (p_taxa x))
+                (combine (map (fun i => fc + Z.of_nat i) (who xc nm np)) (taxa_names (prefix p) pc N)) /\
+    concat (map2 (fun g n => repeat g (Z.to_nat n)) (p_gname x) (p_glen x)) = p_grp x.
+Proof. exact mate_counts. Qed.
+Print Assumptions C01_counts_order.
+
+(** ORDER (partial: names within the 7-digit zero-fill) — progeny k is the k-th of the repeat pattern, names are consecutive
+    from progeny_counter, the matrix is the one generated (group_taxa() is the identity) *)
+Theorem C01_order_partial : forall p geno xoprob meta xc nmating nprogeny nself pc fc draws x,
+  mate p geno xoprob meta xc nmating nprogeny nself pc fc draws = Some x ->
+  exists nm np, expand_count nmating (length xc) = Some nm /\ expand_count nprogeny (length xc) = Some np /\
+    let N := sumn (map2 Nat.mul nm np) in
+    (0 <= pc -> pc + Z.of_nat N <= 10000000 ->
+     p_grp x = map (fun i => fc + Z.of_nat i) (who xc nm np) /\ p_taxa x = taxa_names (prefix p) pc N /\
+     p_mat x = fst (core p geno xoprob xc nm np nself (rng0 draws))).
+Proof. exact mate_order. Qed.
+Print Assumptions C01_order_partial.
+
+(** ... and without that guard the order clause is false: two progeny of one family named across 10^7 come out swapped *)
+Theorem C01_order_refuted : exists p geno xoprob meta xc nm np nself pc fc draws x,
+  mate p geno xoprob meta xc nm np nself pc fc draws = Some x /\ 0 <= pc /\
+  p_taxa x = [taxon_name (prefix p) (pc + 1); taxon_name (prefix p) pc].
+Proof. exact order_refuted. Qed.
+Print Assumptions C01_order_refuted.
+
+(** DH — doubled-haploid progeny are homozygous at every locus (three DH protocols) *)
+Theorem C01_dh_homozygous : forall p geno xoprob meta xc nmating nprogeny nself pc fc draws x,
+  mate p geno xoprob meta xc nmating nprogeny nself pc fc draws = Some x -> is_dh p = true ->
+  nth 0 (p_mat x) [] = nth 1 (p_mat x) [].
+Proof. exact mate_dh. Qed.
+Print Assumptions C01_dh_homozygous.
+
+(** METADATA (partial) — every marker array except vrnt_hapalt / vrnt_hapref reaches the progeny unaltered; all of them when
+    the parents carry no hap-allele arrays *)
+Theorem C01_metadata_partial : forall p geno xoprob meta xc nmating nprogeny nself pc fc draws x,
+  mate p geno xoprob meta xc nmating nprogeny nself pc fc draws = Some x ->
+  let m := p_meta x in
+  vm_chrgrp m = vm_chrgrp meta /\ vm_phypos m = vm_phypos meta /\ vm_name m = vm_name meta /\ vm_genpos m = vm_genpos meta /\
+  vm_xoprob m = vm_xoprob meta /\ vm_hapgrp m = vm_hapgrp meta /\ vm_mask m = vm_mask meta /\
+  vm_chrgrp_name m = vm_chrgrp_name meta /\ vm_chrgrp_stix m = vm_chrgrp_stix meta /\
+  vm_chrgrp_spix m = vm_chrgrp_spix meta /\ vm_chrgrp_len m = vm_chrgrp_len meta /\
+  (vm_hapalt meta = None -> vm_hapref meta = None -> m = meta).
+Proof. exact mate_meta. Qed.
+Print Assumptions C01_metadata_partial.
+
+(** ... the hap-allele arrays are dropped *)
+Theorem C01_metadata_refuted : exists p geno xoprob meta xc nm np nself pc fc draws x l,
+  mate p geno xoprob meta xc nm np nself pc fc draws = Some x /\ vm_hapalt meta = Some l /\ vm_hapalt (p_meta x) = None.
+Proof. exact meta_refuted. Qed.
+Print Assumptions C01_metadata_refuted.
+
+(** mate() succeeds on every well-formed call (row width = nparent, count arrays of length ncross, used parent indices < ntaxa) *)
+Theorem C01_mate_defined : forall p geno xoprob meta xc nmating nprogeny nself pc fc draws nm np,
+  Forall (fun r => length r = nparent p) xc -> expand_count nmating (length xc) = Some nm -> expand_count nprogeny (length xc) = Some np ->
+  Forall (fun s => (s < ntaxa_of geno)%nat) (founder_sels p xc nm np) ->
+  exists x, mate p geno xoprob meta xc nmating nprogeny nself pc fc draws = Some x.
+Proof. exact mate_defined. Qed.
+Print Assumptions C01_mate_defined.
+
+(** non-vacuity: a 3-taxa, 5-marker population (alleles incl. -128/127, xoprob incl. exact 0 and 1/2), a three-way DH cross with
+    two matings, two progeny each and one selfing generation: the hypotheses hold, four progeny are produced from seven
+    uniform matrices, and crossovers fire *)
+Example C01_hyps_satisfiable : nonneg_draws ex_draws /\
+  exists x, mate P3DH ex_geno ex_xoprob meta_none [[2; 0; 1]%nat] (inl 2%nat) (inl 2%nat) 1%nat 5 3 ex_draws = Some x /\
+  length (p_taxa x) = 4%nat /\ p_reqs x = [(2, 5); (2, 5); (2, 5); (2, 5); (2, 5); (2, 5); (4, 5)]%nat /\
+  nth 0 (p_mat x) [] <> nth 0 ex_geno [].
+Proof. split; [exact ex_nonneg | exact ex_runs]. Qed.
